@@ -105,8 +105,8 @@ def optStr : Option Int → String
   | some x => toString x
 
 def evStr : Ev → String
-  | .exec j t => s!"exec {j} {t}"
-  | .cb fin c j st nr => s!"cb {if fin then "f" else "u"} {c} {j} {st.name} {optStr nr}"
+  | .exec j t _ => s!"exec {j} {t}"
+  | .cb fin c j st nr t => s!"cb {if fin then "f" else "u"} {c} {j} {st.name} {optStr nr} {t}"
   | .exc n => s!"exc {n}"
   | .fatal e => s!"fatal {e.name}"
 
@@ -198,6 +198,13 @@ def handle (d : DState) (line : String) : DState × List String :=
       match toOp rest with
       | none => (d, ["bad-op"])
       | some op =>
+        let target : Option Nat := match op with
+          | .cancel j | .pause j | .resume j | .stop j | .reset j | .setCountdown j _
+          | .cbReg _ j _ | .cbRem _ j _ => some j
+          | _ => none
+        if (match target with | some j => !d.handles.contains j | none => false) then
+          (d, schedOut d { d.sched with log := [] } none |>.set 0 "ret err NoHandle")
+        else
         let s0 := { d.sched with log := [], env := d.env }
         let (s', err) := step s0 op
         let d := match op, err with
